@@ -213,3 +213,31 @@ def view_paths(res, fac, clamped, lo=0, hi=1):
             out.append(('path%d' % i, None)); continue
         for reg, g, fix in views: out.append(('path%d/%s' % (i, reg), ViewPath(p, reg, g, fix)))
     return out
+
+
+# ------------------------------------------------------------------ order-invariance (soundness condition of the order-type rules)
+def cmp_of_atoms(r, leaf_only=False):
+    """r is x - y, x - c or c - x for atoms x, y (input leaves; with leaf_only=False also uninterpreted atoms such as summarised calls) and a constant c:
+    what a comparison of two such operands normalises to"""
+    from .alg import Rat, _ATOMS
+    if not isinstance(r, Rat) or not r.is_poly(): return False
+    pos = neg = 0
+    for mono, c in r.num.t.items():
+        if mono == (): continue
+        if len(mono) != 1 or mono[0][1] != 1: return False
+        if leaf_only and _ATOMS[mono[0][0]][0] == 'fn': return False
+        if c == 1: pos += 1
+        elif c == -1: neg += 1
+        else: return False
+    return pos <= 1 and neg <= 1 and pos + neg >= 1
+
+
+def pure_comparison(c, leaf_only=False):
+    """a path condition that only compares two quantities (or a quantity with a constant), or tests a discriminant / boolean"""
+    from .sem import B
+    if not isinstance(c, B): return False
+    if c.k in ('const', 'var', 'truthy'): return True
+    if c.k in ('gt0', 'ge0', 'eq0', 'ne0'): return cmp_of_atoms(c.a[0], leaf_only)
+    if c.k in ('and', 'or'): return pure_comparison(c.a[0], leaf_only) and pure_comparison(c.a[1], leaf_only)
+    if c.k == 'not': return pure_comparison(c.a[0], leaf_only)
+    return False
